@@ -858,6 +858,16 @@ class Program:
                 return None
             if name == 'reserve':
                 return None
+            if name == 'assign':
+                k = self.as_index(av[0])
+                obj[:] = [clone(av[1]) for _ in range(k)]
+                return None
+            if name == 'swap':
+                other = av[0]
+                tmp = list(obj)
+                obj[:] = list(other)
+                other[:] = tmp
+                return None
         if isinstance(obj, CSet):
             if name == 'insert':
                 if not any(o is av[0] for o in obj.items):
